@@ -23,6 +23,26 @@ CHECKS = {
          "Exploration: ~13 k (quick) / ~700 k (thorough) cases: proofs for alpha of length 0..200 incl. multi-round try-and-increment, all single-bit flips of honest proofs, torsion-shifted / non-canonical / undecodable Gamma, s boundary values, all small-order and y>=p key encodings, forged proofs that verify iff validate_key is dropped, valid malleable-Gamma proofs (hash must not change), random and wrong-length strings; decode strictness two-sided.",
          "Trusts SHA-512, math/big and harness/oracle/ecvrf (self-tested on the three RFC 9381 TAI examples). Non-canonical prime-order keys with known discrete log cannot be constructed; canonical-key checking is observed on the reject side only.",
          "DESIGN.md §3 C18"),
+ "C02": ("runtime monitor: every node of stepwise and path derivations compared with an independent SLIP-0010 model; retry and permanent-error branches driven through fault-injecting pluggable curves",
+         "Exploration: ~4.8 k (quick) / 240 k (thorough) (curve, seed, path) cases on secp256k1, P-256, ed25519 and four harness-defined curves that declare a quarter of all candidates invalid (or return a permanent error for a sixteenth); each master/child/public node, each prefix via DeriveKeyFromPath and one public-side child per node is compared (key, chain code, serialized public key, fingerprint) with the model; undefined derivations must fail, permanent errors must surface.",
+         "Trusts HMAC-SHA512/SHA-256/RIPEMD-160 and harness/oracle/slip10m (self-tested on the published SLIP-0010 vectors incl. P-256 retry vectors). Retries on the real curves occur only at 2^-32 / 2^-127 and are exercised through the pluggable curves.",
+         "DESIGN.md §3 C02"),
+ "C03": ("runtime monitor: sentences and decode verdicts judged by a bit-level BIP-0039 model; both built-in word lists read through the API and compared index for index with the official lists",
+         "Exploration with an exhaustive part: all 2 x 2048 word indices (exhaustive), every entropy length x structured entropies (every leading-zero count, every single-bit position) plus ~200 k (quick) / 4 M (thorough) random and mutated cases; encode equality, decode two-sided verdict, error class, fixed point.",
+         "Trusts SHA-256 and the embedded official word lists (verified against the published SHA-256 digests of english.txt/japanese.txt at every run).",
+         "DESIGN.md §3 C03"),
+ "C08": ("runtime monitor: commutation of private/public derivation and of the two Shift methods, with an affine-model oracle for validity and results",
+         "Exploration: ~2.4 k (quick) / 80 k (thorough) derivation pairs and ~4 k / 160 k (scalar, shift) pairs concentrated on shift in {0, k, n-k, n-k+-1, n-1, n, n+1, 2^256-1}; both sides must agree on ErrInvalidKey and on the resulting key, and match the model; panics are violations.",
+         "Trusts math/big and harness/oracle/weier (self-tested).",
+         "DESIGN.md §3 C08"),
+ "C09": ("runtime monitor: seeds compared with an own PBKDF2 over python-unicodedata NFKD (independent of x/text); parser metamorphic relations on white space and compatibility forms",
+         "Exploration: ~8 k (quick) / 300 k (thorough) seeds over passphrases covering every character (assigned since Unicode 3.2) that changes under NFKD, plus ~10 k / 0.5 M parser cases; invalid mnemonics must yield an error and no seed.",
+         "Trusts python3 unicodedata, HMAC-SHA512 and the model in harness/oracle/bip39m; characters restricted to those assigned since Unicode 3.2 outside the CJK compatibility ideograph blocks so that Unicode versions agree.",
+         "DESIGN.md §3 C09"),
+ "C17": ("runtime monitor: every Add/Double/ScalarMult/ScalarBaseMult/IsOnCurve call on both curve copies compared with an affine chord-and-tangent model; algebraic identities; panic monitor",
+         "Exploration: ~12 k (quick) / 500 k (thorough) calls over equal, opposite and identity operands and scalars {0, n-1, n, n+1, n+2, 2n, 2^256-1, leading zeros, 1..40 bytes}.",
+         "Trusts math/big and harness/oracle/weier (self-tested on published multiples of G and against crypto/elliptic P-256).",
+         "DESIGN.md §3 C17"),
 }
 
 NOT_BUILT_REASON = "check not built yet in this round (planned in DESIGN.md §3; runtime monitoring does apply)"
@@ -55,7 +75,7 @@ def main():
         "hooks": {
             "guard": "verif",
             "enable": "go build -tags verif (Go build tag; hook files are new files named export_verif.go with //go:build verif)",
-            "baseline_off_cmd": "cd /repo && GOFLAGS=-mod=mod GOPROXY=off GOSUMDB=off GOTOOLCHAIN=local go test -vet=off -count=1 -timeout 25m ./...",
+            "baseline_off_cmd": "for m in . ./pkg/curl/asm; do (cd /repo/$m && GOFLAGS=-mod=mod GOPROXY=off GOSUMDB=off GOTOOLCHAIN=local go test -json -vet=off -count=1 -timeout 25m ./...); done",
             "source_commits": hook_commits,
             "add_only": True,
         },
